@@ -74,10 +74,14 @@ def driver(d, mf_scns, maxn):
                     L.append('    uo%d.%s = %s;' % (c, n, lit((c + j) / 4.0)))
                 L.append('    Control ctl%d(uo%d);' % (c, c))
         # readings by id
+        declared = set()
         for tk in s["ticks"]:
             if tk["refused"]:
                 continue
             for r in tk["rs"]:
+                if r["id"] in declared:       # the same reading listed twice
+                    continue
+                declared.add(r["id"])
                 key = keys[int(r["key"][1:]) - 1]
                 T = key.title()
                 L.append('    %sOptions zo%d;' % (T, r["id"]))
